@@ -125,6 +125,27 @@ def run(ctx: core.Ctx):
             if np.asarray(got).dtype != np.float32 or not np.array_equal(np.asarray(got), want.astype("float32")):
                 ctx.fail(name, dict(cube=cube.tolist() if nt <= 12 else dict(shape=list(cube.shape))), dict(dtype=str(np.asarray(got).dtype), values=np.asarray(got).tolist()), want.tolist(),
                          note="same float32 value for both layouts, numpy and dask")
+    # two lazy autocorrelation rasters of different cubes evaluated in one dask graph: each is the correlation of its own cube
+    import dask
+    for layout in (("time", "y", "x"), ("y", "x", "time")):
+        cubes = []
+        for _ in range(2):
+            cb = np.zeros((36, 3, 2), dtype="int16")
+            for i in range(3):
+                for j in range(2):
+                    cb[:, i, j] = np.where(gap_mask(rng, 36), np.array(gen.series(rng, 36), dtype="int16"), -3000)
+            cubes.append(cb)
+        t36 = np.arange(36).astype("datetime64[D]")
+        eager = [np.asarray(xr.DataArray(cb, dims=("time", "y", "x"), coords={"time": t36}, attrs={"nodata": -3000}).hdc.algo.autocorr()) for cb in cubes]
+        lazy = [xr.DataArray(da_.from_array(cb, chunks=(36, 2, 1)), dims=("time", "y", "x"), coords={"time": t36}, attrs={"nodata": -3000}).transpose(*layout).hdc.algo.autocorr() for cb in cubes]
+        got = dask.compute(*lazy)
+        ctx.case(("joint", layout), sample=dict(accessor="autocorr", config="two cubes computed in one dask graph", dims=layout))
+        ctx.count("joint dask evaluation")
+        for kk in range(2):
+            if not np.array_equal(np.asarray(got[kk].transpose("y", "x")), eager[kk]):
+                ctx.fail("autocorr accessor", dict(config="two lazy results on different cubes computed together", dims=layout, cube=kk),
+                         np.asarray(got[kk]).tolist(), eager[kk].tolist(), note="each pixel's value is the correlation of its own series")
+                break
     # exactly (anti-)correlated lag-1 vectors: linear ramps and strictly alternating series give |r| = 1; the value always lies in [-1, 1]
     for n in list(range(3, 61)) + [100, 200, 360]:
         ramp = (np.arange(n) * 3 + 7).astype("int16")
